@@ -65,6 +65,9 @@ def _case(draw):
     if gen.chance(draw, 1, 4) and "leaf_syntenies" in case:
         case["costs"] = dict(case["costs"], SEGMENTAL_LOSS=0)
     case["_group"] = group
+    # the type the leaf syntenies are handed over in: the package accepts any sequence of family names (lists through
+    # JSON, tuples, and - for one-letter families, as in its own tests - plain strings), sets for the unordered solvers
+    case["_syn_type"] = draw(st.sampled_from(["list", "list", "tuple", "str", "set"]))
     return case
 
 
@@ -76,6 +79,9 @@ def strategy(tier):
 def check(case):
     group = case["_group"]
     labelled = group != "plain"
+    if labelled and case.get("_syn_type") == "str":
+        # one-letter family names (g0 -> a, g1 -> b, ...) so that a synteny can be a plain string
+        case = dict(case, leaf_syntenies={k: ["abcdefghij"[int(f[1:])] for f in v] for k, v in case["leaf_syntenies"].items()})
     orig_o = parse_newick(case["object_tree"])
     orig_s = parse_newick(case["species_tree"])
     polytomous = not (orig_o.is_binary() and orig_s.is_binary())
@@ -92,6 +98,14 @@ def check(case):
         inst0 = Instance(case)
         labels += [l for l in common_labels(inst0, labelled) if l.startswith(("obj=", "sp=", "fam=", "hgt", "empty"))]
     inp = pkg.make_input(case, labelled=labelled)
+    syn_type = case.get("_syn_type", "list") if labelled else "list"
+    if syn_type == "set" and not group.endswith("unordered"):
+        syn_type = "tuple"
+    if syn_type != "list":
+        # same content, other container type, set on the input object before solving
+        for node, syn in list(inp.leaf_syntenies.items()):
+            inp.leaf_syntenies[node] = {"tuple": tuple, "set": set, "str": "".join}[syn_type](syn)
+        labels.append(f"syntenies_as_{syn_type}")
     n_solutions = 0
     eventful = False
     nleaves = len(orig_o.leaves())
@@ -100,8 +114,10 @@ def check(case):
             continue
         mode, _ = MODE[algo]
         for policy in ("ALL", "ANY") if algo != "lca" else ("ALL",):
-            if policy == "ALL" and algo != "lca" and (nleaves > 6 or len(orig_s.leaves()) > 6):
-                # co-optimal sets explode with zero costs on large inputs: larger sizes run ANY only
+            free_losses = labelled and c["FULL_LOSS"] == 0 and c["SEGMENTAL_LOSS"] == 0 and nleaves > 4
+            if policy == "ALL" and algo != "lca" and (nleaves > 6 or len(orig_s.leaves()) > 6 or free_losses):
+                # co-optimal sets explode with zero costs on large inputs (and on labelled inputs above 4 leaves when both
+                # loss costs are zero: one such polytomous case took 55 s): those run ANY only
                 if "ALL_skipped_large" not in labels:
                     labels.append("ALL_skipped_large")
                 continue
@@ -124,8 +140,10 @@ def check(case):
                     if ocase["leaf_object_species"] != case["leaf_object_species"]:
                         raise Violation(f"{algo}.{policy}.V-TREES.leaf-species-changed", observed=ocase["leaf_object_species"],
                                         expected=case["leaf_object_species"])
-                    if {k: list(v) for k, v in ocase.get("leaf_syntenies", {}).items()} != {
-                        k: list(v) for k, v in case["leaf_syntenies"].items()
+                    # ordered model: the same sequences; unordered model: the same family sets (a set has no order)
+                    norm = list if mode == "ordered" else sorted
+                    if {k: norm(v) for k, v in ocase.get("leaf_syntenies", {}).items()} != {
+                        k: norm(v) for k, v in case["leaf_syntenies"].items()
                     }:
                         raise Violation(f"{algo}.{policy}.V-TREES.leaf-syntenies-changed", observed=ocase.get("leaf_syntenies"),
                                         expected=case["leaf_syntenies"])
